@@ -438,12 +438,15 @@ func (x *run) act(a string) bool {
 			switch {
 			case self && x.jst[c] == "insel":
 				x.jready[c] = "self"
+				if !processed() {
+					break
+				}
 				if e, ok := x.wait(isEv("j"+strconv.Itoa(c), "ret:"), "join return after self-presence"); ok {
 					x.joinReturned(c, e)
 				} else {
 					x.r.Fail("join-success-iff", "self-presence-did-not-complete-join:"+item.class(), x.lines(), fmt.Sprintf("self-presence for occupant address %d (payload %s) was sent while Join of channel %d waited, the call did not return%s", ad, item.raw, c, x.served()))
 				}
-				processed()
+				x.sync()
 			case self && x.jst[c] == "parked":
 				x.jready[c] = "self"
 				x.blocked, x.blockedBy = true, "j"+strconv.Itoa(c) // the handler waits for the joiner to reach its select
